@@ -1,6 +1,6 @@
 (* Properties/C04.v — Every downstream request is a valid, owned, minimal sub-query.  Statements only. *)
 From V Require Import Base.Util Gql.Ast Gql.RefExec Model.Perm Model.Plan Model.Gateway Corr.E2ECheck.
-From V Require Import Proofs.TrickyWorld Proofs.C01Witness Proofs.PlanProofs.
+From V Require Import Proofs.TrickyWorld Proofs.C01Witness Proofs.SharedWorld Proofs.C04Witness Proofs.PlanProofs.
 
 (* minimal: only fields the client selected (after @skip/@include and permission filtering, which produce the [ss] the
    planner is given) plus helper-aliased key/__typename plumbing — for every schema, table and selection *)
@@ -29,6 +29,18 @@ Print Assumptions C04_refuted_shared_remote_abstract.
 (* non-vacuity: on the same federation a neighbouring query produces only valid sub-queries *)
 Example C04_control : exists o, gw q_recurring_aliased = Ok o /\ requests_valid world_t (oc_requests o) = true.
 Proof. exact control_requests_valid. Qed.
+
+(* A second, independent refutation of the full statement (known finding KF-foreign-abstract-condition): a boundary type that
+   belongs to abstract types of two services makes a fragment on the OTHER service's abstract type valid in the merged
+   schema; the fragment is forwarded verbatim to a service that does not define the type. *)
+Theorem C04_refuted_foreign_abstract_condition : ~ C04_valid_subqueries_for gen_shared world_s.
+Proof.
+  intros H. destruct refuted_foreign_cond_valid as [o [Ho Hbad]].
+  rewrite (H (qop q_foreign_cond) [] o foreign_cond_valid_in_merged eq_refl Ho) in Hbad. discriminate.
+Qed.
+Print Assumptions C04_refuted_foreign_abstract_condition.
+Example C04_control_member_condition : exists o, gw_s q_member_cond = Ok o /\ requests_valid world_s (oc_requests o) = true.
+Proof. exact control_member_cond_valid. Qed.
 
 (* "never asks for the same id twice within one lookup", and lookups are queries: for EVERY generation, world (data, faults),
    operation, variables, permission set, limit and fuel, every downstream request of the gateway model carries duplicate-free
